@@ -1,6 +1,7 @@
 import RedisVerif.Driver.C07
 import RedisVerif.Driver.C08
 import RedisVerif.Driver.C11
+import RedisVerif.Driver.C12
 
 open RedisVerif.Driver
 
@@ -25,4 +26,6 @@ def main (args : List String) : IO UInt32 := do
   | ["C07"] => loop stdin stdout C07.step; return 0
   | ["C08"] => loopState stdin stdout C08.step (RedisVerif.Shard.init 0 false); return 0
   | ["C11"] => loopState stdin stdout C11.step C11.init; return 0
+  | ["C12"] => loopState stdin stdout C12.step C12.init; return 0
+  | ["C13"] => loopState stdin stdout C12.step C12.init; return 0
   | _ => IO.eprintln "usage: rvdriver <property-id> < ops"; return 2
